@@ -799,10 +799,17 @@ def crawl_case(rng):
         options = [o for o in options if o not in ('--timestamping', '--continue', '--no-clobber')]
     return {'entry': 'crawl', 'raw': raw, 'hostile': hostile, 'windows_names': rng.random() < 0.3, 'warc': warc,
             'options': options, 'second_run': rng.random() < 0.5,
+            # URL layouts in which one URL's file name is another URL's directory (extension-less pages: /docs and
+            # /docs/intro), linked in a random order and fetched with some concurrency
+            'layout': rng.sample(LAYOUT_URLS, rng.randrange(2, len(LAYOUT_URLS) + 1)) if rng.random() < 0.4 else [],
+            'concurrent': rng.choice([1, 1, 2, 4]), 'delay_seed': rng.randrange(1 << 30),
             'progress': rng.choice(['quiet', 'quiet', 'bar', 'dot']),
             # post-processing of what the server sent: link conversion reads every saved file again after the downloads
             'convert_links': rng.random() < 0.3}
 
+
+LAYOUT_URLS = ['/d', '/d/e', '/d/e/f.html', '/d/e/f.html/g', '/d/', '/d/e/', '/k/l/m', '/k/l', '/k', '/k/l/m/n/o', '/index.html', '/index.html/x',
+               '/d/e/f.html/g/', '/k/l/']
 
 HOSTILE_FIELDS = [
     b'Last-Modified: garbage', b'Last-Modified: ', b'Last-Modified: Mon, 31 Feb 2020 25:61:61 GMT', b'Last-Modified: Thu, 01 Jan 99999 00:00:00 GMT',
@@ -824,14 +831,18 @@ def run_crawl_case(case, part):
         t = req['target']
         html = [('Content-Type', 'text/html; charset=utf-8')]
         if t == '/':
-            return {'status': 200, 'headers': html, 'body': b'<html><body><a href="/hostile">h</a><a href="/sentinel.html">s</a></body></html>'}
+            extra = ''.join('<a href="%s">l</a>' % u for u in case.get('layout') or [])
+            return {'status': 200, 'headers': html, 'body': ('<html><body><a href="/hostile">h</a>%s<a href="/sentinel.html">s</a></body></html>' % extra).encode()}
         if t == '/sentinel.html':
             return {'status': 200, 'headers': html, 'body': b'<html><body>ok</body></html>'}
         if t == '/hostile':
             return {'raw': case['raw'], 'close': True}
+        if t in (case.get('layout') or []):
+            return {'status': 200, 'headers': html, 'body': b'<html><body>page ' + t.encode() + b'</body></html>'}
         return {'status': 404, 'reason': 'NF', 'headers': html, 'body': b'nf'}
     addrs, port = servers.allocate_addresses(1)
-    srv = servers.Server(handler, addrs, port).start()
+    srv = servers.Server(handler, addrs, port, delay_seed=case.get('delay_seed', 0),
+                         max_delay=0.01 if case.get('concurrent', 1) > 1 else 0.0).start()
     tmp = tempfile.mkdtemp(prefix='vc09')
     import logging
     logging.disable(logging.NOTSET)       # (the crash classifier reads the application's own log)
@@ -839,6 +850,10 @@ def run_crawl_case(case, part):
         db = os.path.join(tmp, 'crawl.db')
         argv = ['http://a.test/', '-r', '--level', '3', '--no-robots', '--database', db, '-P', tmp, '--waitretry', '0',
                 '--tries', '3', '--timeout', '5'] + list(case.get('options') or [])
+        if case.get('concurrent', 1) > 1:
+            argv += ['--concurrent', str(case['concurrent'])]
+        if case.get('layout'):
+            part.count('crawl_with_file_and_directory_name_conflicts')
         progress = case.get('progress', 'quiet')
         argv += ['--quiet'] if progress == 'quiet' else ['--progress', progress]
         if case['windows_names']:
